@@ -9,6 +9,7 @@ import (
 	"fmt"
 	"hash"
 	"io"
+	"math"
 	"net"
 	"strconv"
 	"strings"
@@ -368,11 +369,21 @@ func readMessage(r io.Reader, header *wire.MessageHeader, msg wire.Message) erro
 		rc = r
 	}
 
-	// Read payload.
-	payload := make([]byte, header.Length)
-	if _, err := io.ReadFull(rc, payload); err != nil {
+	// Read payload. Don't allocate the declared length up front since it is provided by the peer and
+	// some message types allow any length. The buffer only grows as data is received.
+	if header.Length > math.MaxInt64 {
+		return errors.Wrap(ErrMessageTooLarge, fmt.Sprintf("%s: %d b", header.CommandString(),
+			header.Length))
+	}
+
+	buf := &bytes.Buffer{}
+	if _, err := io.CopyN(buf, rc, int64(header.Length)); err != nil {
+		if err == io.EOF {
+			err = io.ErrUnexpectedEOF
+		}
 		return errors.Wrap(err, "read")
 	}
+	payload := buf.Bytes()
 
 	// Extended messages don't use a checksum.
 	if checkSum != nil {
